@@ -230,7 +230,7 @@ static bool text_is_expected(DString * d) {
 }
 
 #define PRE_update (u8_valid(key))
-#define POST_update (text_is_expected(e->dstr) && e->metadata_stack->size == g_cnt)
+#define POST_update (text_is_expected(e->dstr) && e->metadata_stack->size == 0)   /* the records of the OLD text are discarded so that the next query re-collects them (fix 3c42d25) */
 void h_update(void) {
 	mmd_engine * e = mk_engine();
 	char * key = mk_str(KN);
